@@ -397,3 +397,59 @@ Proof.
   unfold strip. destruct (lstrip s) as [|c r] eqn:E; [reflexivity|].
   apply rstrip_head. eapply lstrip_head_nonspace; eauto.
 Qed.
+
+(* ------------------------------------------------------------------ *)
+(* more on lines: texts made of terminated entries, universal newlines *)
+
+Lemma split_on_map {A} (p : A -> bool) (f : A -> A) : (forall c, p (f c) = p c) ->
+  forall s, split_on p (map f s) = map (map f) (split_on p s).
+Proof.
+  intros Hf. induction s as [|c s IH]; [reflexivity|].
+  cbn [map split_on]. rewrite Hf, IH. destruct (p c); [reflexivity|].
+  destruct (split_on p s); reflexivity.
+Qed.
+
+(* a text that ends an entry with "\n" splits independently of what follows *)
+Lemma split_lines_terminated : forall a b,
+  split_lines (a ++ LF :: b) = split_lines (a ++ [LF]) ++ split_lines b.
+Proof.
+  unfold split_lines. induction a as [|c a IH]; intros b; [reflexivity|].
+  cbn [app]. rewrite !split_on_cons, IH. destruct (is_lf c); [reflexivity|].
+  destruct (split_on is_lf (a ++ [LF])) as [|l ls] eqn:E; [|reflexivity].
+  exfalso. destruct a; cbn [app] in E; eapply split_on_cons_nonempty; exact E.
+Qed.
+
+Definition entry_lines (e : text) : list text := split_lines (e ++ [LF]).
+
+Lemma split_lines_unlines_entries : forall es,
+  split_lines (unlines es) = concat (map entry_lines es).
+Proof.
+  induction es as [|e es IH]; [reflexivity|].
+  unfold unlines in *. cbn [map concat]. rewrite <- app_assoc. cbn [app].
+  rewrite split_lines_terminated, IH. reflexivity.
+Qed.
+
+Lemma entry_lines_plain e : no_lf e = true -> entry_lines e = [e].
+Proof.
+  intros H. unfold entry_lines, split_lines. rewrite split_on_piece; [reflexivity|exact H|exact is_lf_LF].
+Qed.
+
+Lemma universal_plain c s : is_cr c = false -> universal (c :: s) = c :: universal s.
+Proof. intros H. cbn [universal]. rewrite H. reflexivity. Qed.
+
+Lemma no_cr_cons c s : no_cr (c :: s) = negb (is_cr c) && no_cr s.
+Proof. reflexivity. Qed.
+
+(* after universal newlines no carriage return is left *)
+Lemma no_cr_universal : forall s, no_cr (universal s) = true.
+Proof.
+  induction s as [|c s IH]; [reflexivity|].
+  cbn [universal]. destruct (is_cr c) eqn:Hc.
+  - destruct s as [|c2 s2]; [reflexivity|]. destruct (is_lf c2) eqn:H2.
+    + assert (Hn : is_cr c2 = false).
+      { unfold is_lf, is_cr in *. apply Ascii.eqb_eq in H2. subst c2. reflexivity. }
+      rewrite universal_plain, no_cr_cons in IH by exact Hn.
+      apply andb_true_iff in IH as [_ IH]. rewrite no_cr_cons, IH. reflexivity.
+    + rewrite no_cr_cons, IH. reflexivity.
+  - rewrite no_cr_cons, Hc, IH. reflexivity.
+Qed.
